@@ -295,8 +295,8 @@ class Discharger:
                 return 'D3:I3', 'rank sets contain only members, members are registered users'
             if k == ('elem', field(STATE, 'wallops_users')):
                 return 'D3:I4', 'wallops_users is a subset of the registry'
-            if any(c[0] == 'a' and c[1][0] == 'is' and c[1][1][0] == 'get' and c[1][1][2] == k and path_of(c[1][1][1])[-1:] == ['users']
-                   and (mentions(c[1][1][1], CHANNELS) or root_of(c[1][1][1])[0] == 'param') for c in conjuncts(e.pc)):
+            if any(a[0] == 'is' and a[2] == 'Some' and a[1][0] == 'get' and a[1][2] == k and path_of(a[1][1])[-1:] == ['users']
+                   and (mentions(a[1][1], CHANNELS) or root_of(a[1][1])[0] == 'param') and entails(e.pc, Atom(a))[0] for a in atoms(e.pc)):
                 return 'D3:I2', 'a channel member is a registered user'
             # elements of a local collection filled only from rank sets / member keys of channels
             if k[0] == 'elem' and k[1][0] == 'local':
